@@ -718,6 +718,9 @@ func main() {
 	// (f2) f:in(e1,..,en) vs the written-out OR of its members as stand-alone filters (text, path,
 	// keyword fields; multi-word members in every position): same selection, by truth table
 	inOrCases(w, r, nRound/2)
+	// (f3) range filters: the stored bounds are the terms of the plain literals of the same written
+	// values (case folding, escapes, quote styles, wildcard ends), both case modes
+	rangeCases(w, r, nRound/2)
 	// (g) raw-string totality fuzz of the parsers that have no byte-level model (legacy ParseQuery,
 	// ParseAggregationFilter) and of ParseSeqQL under every mapping
 	fuzz(w, r, nFuzz)
